@@ -186,7 +186,79 @@ pub struct LayerCase {
 }
 
 fn layer_strategy() -> BoxedStrategy<LayerCase> {
-    bx((state12(), state12(), any::<u16>()).prop_map(|(state, state2, round)| LayerCase { state, state2, round }))
+    bx(prop_oneof![
+        6 => (state12(), state12(), any::<u16>()).prop_map(|(state, state2, round)| LayerCase { state, state2, round }),
+        2 => acc160_boundary_case(),
+    ])
+}
+
+/// The 160-bit accumulator of the sparse partial-round step for round `pr` and state `s`:
+/// `d = M00 s_0 + sum w_hat_i s_i` as (bits 128.., bits 0..128).
+fn acc160(s: &[u64; 12], pr: usize) -> (u32, u128) {
+    let w_hat = <F as Poseidon>::FAST_PARTIAL_ROUND_W_HATS[pr];
+    let (mut hi, mut lo) = (0u32, 0u128);
+    for i in 0..12 {
+        let w = if i == 0 { pref::MDS_CIRC[0] + pref::MDS_DIAG[0] } else { w_hat[i - 1] };
+        let (l, c) = lo.overflowing_add(s[i] as u128 * w as u128);
+        lo = l;
+        hi += c as u32;
+    }
+    (hi, lo)
+}
+
+/// Is the accumulator in the region where its reduction has to propagate a carry out of bit 128
+/// (`top limb + hi * (2^32 - 1)` wraps 2^64)? Measure about 2^-29 for uniform states.
+fn acc160_carry_region(hi: u32, lo: u128) -> bool {
+    hi > 0 && ((lo >> 64) as u64).checked_add(hi as u64 * EPS).is_none()
+}
+
+/// Boundary class for the multi-limb accumulation of `mds_partial_layer_fast`: one lane is solved so that
+/// the low 128 bits of the accumulator land next to a chosen limb boundary (top limb all ones, zero, or at
+/// the edge `2^64 - hi * (2^32 - 1) + c` of the carry region), for every partial round index.
+fn acc160_boundary_case() -> BoxedStrategy<LayerCase> {
+    (uniform12(any::<u64>()), state12(), 0usize..pref::N_PARTIAL, 1usize..12, 0u8..6, 0u64..5)
+        .prop_map(|(mut s, state2, pr, j0, which, c)| {
+            let w_hat = <F as Poseidon>::FAST_PARTIAL_ROUND_W_HATS[pr];
+            let round = ((pr as u32 * 65536 + 65535) / pref::N_PARTIAL as u32) as u16; // frac(round, N_PARTIAL) == pr
+            for dj in 0..11 {
+                let j = 1 + (j0 - 1 + dj) % 11;
+                let w = w_hat[j - 1] as u128;
+                if w == 0 {
+                    continue;
+                }
+                let mut t = s;
+                t[j] = 0;
+                let (a_hi, a_lo) = acc160(&t, pr);
+                let mut done = false;
+                for h in [a_hi, a_hi + 1] {
+                    let edge = (h as u64).wrapping_mul(EPS).wrapping_neg(); // 2^64 - h * eps (mod 2^64)
+                    let top: u64 = match which {
+                        0 => u64::MAX - c,
+                        1 => c,
+                        2 => edge.wrapping_add(c),
+                        3 => edge.wrapping_sub(c + 1),
+                        4 => (1u64 << 63).wrapping_add(c),
+                        _ => (u32::MAX as u64).wrapping_sub(c) << 32,
+                    };
+                    let v = ((top as u128) << 64) | (1u128 << 63);
+                    let wraps = v < a_lo;
+                    if wraps != (h == a_hi + 1) {
+                        continue;
+                    }
+                    let x = v.wrapping_sub(a_lo) / w;
+                    if x <= u64::MAX as u128 {
+                        s[j] = x as u64;
+                        done = true;
+                        break;
+                    }
+                }
+                if done {
+                    break;
+                }
+            }
+            LayerCase { state: s, state2, round }
+        })
+        .boxed()
 }
 
 fn ext_mul(a: (u64, u64), b: (u64, u64)) -> (u64, u64) {
@@ -308,6 +380,12 @@ fn layer_prop(c: &LayerCase, st: &mut Stats) -> Result<(), String> {
     // lanes): [d | s_i + s_0 v_i], d = M00 s_0 + sum w_hat_i s_i.
     let w_hat = <F as Poseidon>::FAST_PARTIAL_ROUND_W_HATS[pr];
     let vs = <F as Poseidon>::FAST_PARTIAL_ROUND_VS[pr];
+    let (acc_hi, acc_lo) = acc160(s, pr);
+    if acc160_carry_region(acc_hi, acc_lo) {
+        st.label("layer:acc160_in_carry_region");
+    } else if (acc_lo >> 64) as u64 <= 8 || (acc_lo >> 64) as u64 >= u64::MAX - 8 {
+        st.label("layer:acc160_top_limb_at_boundary");
+    }
     let mut want_f = [0u64; 12];
     want_f[0] = pref::mulm(s[0], pref::MDS_CIRC[0] + pref::MDS_DIAG[0]);
     for i in 1..12 {
